@@ -490,6 +490,31 @@ def name_pair(ctx):
     okv = all((a[0] == 'const' and a[1] in allc) or (a[0] == 'call' and a[1].endswith('Name::fully_qualified_name')) for a in vo.atoms)
     ctx.ob('NAMEPAIR', 'decoder/visit-arg', okv, short_loc(dec.span), 'visit_str receives %s' % vo.describe())
     ctx.floor('NAMEPAIR', 'kinds named by the decoder', len([k for k in names if names[k]]), 23)
+    # a decimal is named by what it is written over: a decimal over a *fixed* by that fixed's own fullname - the name under
+    # which the encoder registers it at top precedence; its "Decimal" alias is registered below a bytes decimal's type name,
+    # so a decoder that calls both "Decimal" sends the fixed one back into the bytes branch - ; a bytes decimal by "Decimal"
+    DREPR = 'schema::self_referential::DecimalRepr'
+    per_repr = {}
+    for r in enum_regions(dec, SCHEMA_NODE):
+        if set(r.variants) != {'Decimal'}:
+            continue
+        for r2 in enum_regions(dec, DREPR):
+            if not (set(r2.blocks) & set(r.blocks)):
+                continue
+            got = set()
+            for bb in sorted(r2.blocks):
+                for s_ in dec.stmts(bb):
+                    if 'assign' in s_ and s_['rv']['k'] == 'use' and const_str(s_['rv']['op']) is not None:
+                        got.add(const_str(s_['rv']['op']))
+                t_ = dec.term(bb)
+                if t_['k'] == 'call' and cname(t_).endswith('Name::fully_qualified_name'):
+                    got.add('<fullname>')
+            for v_ in r2.variants:
+                per_repr.setdefault(v_, set()).update(got)
+    okd = per_repr.get('Fixed') == {'<fullname>'} and per_repr.get('Bytes') == {'Decimal'}
+    ctx.ob('NAMEPAIR', 'Decimal/named-by-representation', okd, short_loc(dec.span),
+           'decoder names a decimal over a fixed %s and a bytes decimal %s (expected: the fixed\'s fullname / "Decimal")' % (
+               sorted(per_repr.get('Fixed', [])) or 'without looking at the representation', sorted(per_repr.get('Bytes', [])) or '-'))
     for kind in KINDS:
         prop = names.get(kind, set())
         reg = regs.get(kind, {'type_names': set(), 'named': False})
